@@ -8,6 +8,8 @@
 #include <mpi.h>
 #include <algorithm>
 #include <set>
+#include <map>
+#include <cstring>
 #include "vf.hpp"
 
 extern "C" {
@@ -27,6 +29,17 @@ int main(int argc, char **argv) {
     std::string err;
     if (ranks != P) err = "harness: case is for " + std::to_string(ranks) + " ranks, started with " + std::to_string(P);
     std::set<unsigned> mine; unsigned mymax = 0; bool differed = false, grew = false;
+    std::map<unsigned, void *> reg;      // model of this rank's registry: id -> registered taskpool
+    // every id up to the largest one the registry can hold must resolve to the model's entry, or to nothing
+    auto sweep = [&](unsigned upto, const char *when, std::string &lerr) {
+        for (unsigned id = 1; id <= upto && lerr.empty(); id++) {
+            void *got = c37_lookup(id); auto it = reg.find(id); void *want = it == reg.end() ? nullptr : it->second;
+            if (got != want) { char b[256]; snprintf(b, sizeof b, "rank %d: %s lookup(%u) returned %p, the model says %p (%s)", rank, when, id, got, want, want ? "registered here" : "not registered on this rank"); lerr = b; }
+        }
+    };
+    // age the heap: a registry array that grows must not rely on fresh zero pages (free()d blocks keep this pattern)
+    { std::vector<void *> blocks; for (int i = 0; i < 64; i++) { size_t n = (size_t)16 << (i % 9); void *q = malloc(n); memset(q, 0x5a, n); blocks.push_back(q); }
+      for (void *q : blocks) free(q); }
     for (size_t r = 0; r < rounds.size() && err.empty(); r++) {
         int k = rank < (int)rounds[r].size() ? rounds[r][rank] : 0;
         std::string lerr;
@@ -34,22 +47,26 @@ int main(int argc, char **argv) {
             void *p = c37_pool_new(); int id = c37_reserve(p);
             if (id <= 0 || mine.count((unsigned)id)) lerr = "rank " + std::to_string(rank) + ": reserve_id returned " + std::to_string(id) + " which it had handed out before";
             mine.insert((unsigned)id); mymax = std::max(mymax, (unsigned)id);
-            if (i % 3 == 0) { c37_register(p); if (c37_lookup((unsigned)id) != p) lerr = "rank " + std::to_string(rank) + ": lookup of a registered id fails"; if (i % 2) c37_unregister(p); }
+            if (i % 3 == 0) { c37_register(p); reg[(unsigned)id] = p; if (c37_lookup((unsigned)id) != p) lerr = "rank " + std::to_string(rank) + ": lookup of a registered id fails"; if (i % 2) { c37_unregister(p); reg.erase((unsigned)id); } }
         }
+        sweep(mymax, "before sync_ids", lerr);
         c37_sync();
         void *p = c37_pool_new(); int nid = c37_reserve(p);
+        sweep((unsigned)std::max(nid, (int)mymax), "after sync_ids", lerr);
         if (mine.count((unsigned)nid)) lerr = "rank " + std::to_string(rank) + ": the id reserved after sync_ids (" + std::to_string(nid) + ") had already been handed out on this rank";
         std::vector<int> all(P), maxs(P), bad(P); int mm = (int)mymax, b = lerr.empty() ? 0 : 1;
         MPI_Allgather(&nid, 1, MPI_INT, all.data(), 1, MPI_INT, MPI_COMM_WORLD);
         MPI_Allgather(&mm, 1, MPI_INT, maxs.data(), 1, MPI_INT, MPI_COMM_WORLD);
         MPI_Allgather(&b, 1, MPI_INT, bad.data(), 1, MPI_INT, MPI_COMM_WORLD);
+        std::vector<char> msgs(256 * P, 0); char mymsg[256] = {0}; snprintf(mymsg, sizeof mymsg, "%s", lerr.c_str());
+        MPI_Allgather(mymsg, 256, MPI_CHAR, msgs.data(), 256, MPI_CHAR, MPI_COMM_WORLD);
         int gmax = *std::max_element(maxs.begin(), maxs.end());
         if (*std::min_element(maxs.begin(), maxs.end()) != gmax) differed = true;
         if (gmax >= 4) grew = true;
         std::ostringstream o;
         for (int q = 0; q < P; q++) if (all[q] != all[0]) { o << "round " << r << ": after sync_ids the ranks reserve different identifiers:"; for (int x : all) o << " " << x; o << " (largest id before the sync per rank:"; for (int x : maxs) o << " " << x; o << ")"; break; }
         if (o.str().empty() && all[0] <= gmax) { o << "round " << r << ": after sync_ids the next identifier is " << all[0] << " but identifier " << gmax << " had already been handed out on some rank"; }
-        if (o.str().empty()) for (int q = 0; q < P; q++) if (bad[q]) { o << "round " << r << ": rank " << q << " saw a local violation"; break; }
+        if (o.str().empty()) for (int q = 0; q < P; q++) if (bad[q]) { o << "round " << r << ": " << &msgs[256 * q] << " (ids handed out before the sync per rank:"; for (int x : maxs) o << " " << x; o << ")"; break; }
         err = o.str();
         if (err.empty() && !lerr.empty()) err = lerr;
         mine.insert((unsigned)nid); mymax = std::max(mymax, (unsigned)nid);
